@@ -19,6 +19,7 @@ EXTENDS HugrValidity
 CONSTANTS RootInputs,     \* input row of the root Dfg, e.g. <<BoolT, QubitT>>
           MaxCalls, MaxDepth,
           Ops,            \* names of the alphabet operations a configuration uses
+          ModuleRoot,     \* TRUE: the root is a Module (functions, declarations and calls only); FALSE: a Dfg over RootInputs
           MaxBlocks,      \* blocks per CFG (entry included)
           MaxArgs,        \* arguments of add_nested / add_cfg / set_outputs and the rest row of add_tail_loop (<= 2)
           Features        \* subset of {"load", "nested", "order", "cond", "loop"}: the builder calls a configuration explores
@@ -62,7 +63,7 @@ RECURSIVE ValueAncB(_)
 ValueAncB(n) == IF n = 0 \/ NodeOp(n).op = "FuncDefn" THEN {n} ELSE {n} \cup ValueAncB(NodePar(n))
 
 (* value wires produced in the region of container c: outputs of its Input node and of the completed dataflow nodes in it *)
-Producers(c) == {n \in 0..(NNodes - 1) : n # 0 /\ NodePar(n) = c /\ n \in done /\ NodeOp(n).op \notin {"Output", "Const", "Case", "FuncDefn", "DataflowBlock", "ExitBlock"}}
+Producers(c) == {n \in 0..(NNodes - 1) : n # 0 /\ NodePar(n) = c /\ n \in done /\ NodeOp(n).op \notin {"Output", "Const", "Case", "FuncDefn", "FuncDecl", "DataflowBlock", "ExitBlock"}}
 RegionWires(c) == UNION {{<<n, o>> : o \in 0..(Len(OutRow(n)) - 1)} : n \in Producers(c)}
 (* wires a new node in container c may take: local ones (linear ones only if unused), copyable ones of enclosing regions *)
 (* Dom wires: a node placed directly in a basic block may take a copyable value produced directly in another block of the same
@@ -78,11 +79,13 @@ Usable(c) ==
   \cup DomWires(c)
 
 Init ==
-  /\ nodes = <<[op |-> [op |-> "DFG", signature |-> FnT(RootInputs, <<>>)], parent |-> 0],
-               [op |-> [op |-> "Input", types |-> RootInputs], parent |-> 0],
-               [op |-> [op |-> "Output", types |-> <<>>], parent |-> 0]>>
-  /\ links = <<>> /\ ctxs = <<[node |-> 0, inp |-> 1, out |-> 2, kind |-> "dfg", cond |-> -1]>> /\ pending = {}
-  /\ done = {1} /\ used = {} /\ calls = 0 /\ hist = <<>> /\ refused = ""
+  /\ IF ModuleRoot
+       THEN nodes = <<[op |-> [op |-> "Module"], parent |-> 0]>> /\ ctxs = <<>> /\ done = {0}
+       ELSE /\ nodes = <<[op |-> [op |-> "DFG", signature |-> FnT(RootInputs, <<>>)], parent |-> 0],
+                         [op |-> [op |-> "Input", types |-> RootInputs], parent |-> 0],
+                         [op |-> [op |-> "Output", types |-> <<>>], parent |-> 0]>>
+            /\ ctxs = <<[node |-> 0, inp |-> 1, out |-> 2, kind |-> "dfg", cond |-> -1]>> /\ done = {1}
+  /\ links = <<>> /\ pending = {} /\ used = {} /\ calls = 0 /\ hist = <<>> /\ refused = ""
 
 (* `_wire_up(node, args)`: for argument i, the order edge to the sibling ancestor if the wire is non-local, then the link *)
 RECURSIVE WireUp(_, _, _, _, _)
@@ -185,17 +188,41 @@ AddTailLoop(k, just, rest) ==
 (* define_function(name, inputs, outputs?): FuncDefn (a child of the root), its Input and Output; with declared outputs the
    function can be called (also recursively) before it is finished *)
 FuncRows == {<<>>, <<BoolT>>, <<QubitT>>}
-Funcs == {n \in 0..(NNodes - 1) : NodeOp(n).op = "FuncDefn"}
-Callable == {f \in Funcs : f \in done}
+Funcs == {n \in 0..(NNodes - 1) : NodeOp(n).op \in {"FuncDefn", "FuncDecl"}}
+IsPoly(f) == NodeOp(f).signature.params # <<>>
+Callable == {f \in Funcs : f \in done /\ ~IsPoly(f)}
 DefineFunction(ins, declared, outs) ==
   LET n == NNodes IN
-  /\ calls < MaxCalls /\ Len(ctxs) < MaxDepth /\ Cardinality(Funcs) < 2
+  /\ calls < MaxCalls /\ Len(ctxs) < MaxDepth /\ Cardinality({f \in Funcs : NodeOp(f).op = "FuncDefn"}) < 2
   /\ nodes' = nodes \o <<[op |-> [op |-> "FuncDefn", name |-> "f", signature |-> [params |-> <<>>, body |-> FnT(ins, IF declared THEN outs ELSE <<>>)]], parent |-> 0],
                          [op |-> [op |-> "Input", types |-> ins], parent |-> n],
                          [op |-> [op |-> "Output", types |-> <<>>], parent |-> n]>>
   /\ ctxs' = Append(ctxs, [node |-> n, inp |-> n + 1, out |-> n + 2, kind |-> IF declared THEN "funcd" ELSE "func", cond |-> -1])
   /\ done' = done \cup {n + 1} \cup (IF declared THEN {n} ELSE {}) /\ calls' = calls + 1 /\ UNCHANGED <<links, used, pending>>
   /\ hist' = Append(hist, [a |-> "DefineFunction", ctx |-> 0, ins |-> ins, declared |-> declared, outs |-> outs])
+(* declare_function(name, signature): a FuncDecl child of the (module) root; either monomorphic Bool -> Bool or polymorphic over a row *)
+MonoDecl == [params |-> <<>>, body |-> FnT(<<BoolT>>, <<BoolT>>)]
+RowDecl  == [params |-> <<[tp |-> "List", param |-> [tp |-> "Type", b |-> "A"]]>>,
+             body |-> FnT(<<[t |-> "R", i |-> 0, b |-> "A"]>>, <<[t |-> "R", i |-> 0, b |-> "A"]>>)]        \* forall R : [Type]. R -> R
+DeclareFunction(poly) ==
+  LET n == NNodes IN
+  /\ calls < MaxCalls /\ Cardinality({f \in Funcs : NodeOp(f).op = "FuncDecl"}) < 2
+  /\ \A f \in Funcs : NodeOp(f).op = "FuncDecl" => IsPoly(f) # poly
+  /\ nodes' = Append(nodes, [op |-> [op |-> "FuncDecl", name |-> IF poly THEN "row_id" ELSE "decl", signature |-> IF poly THEN RowDecl ELSE MonoDecl], parent |-> 0])
+  /\ done' = done \cup {n} /\ calls' = calls + 1 /\ UNCHANGED <<links, ctxs, used, pending>>
+  /\ hist' = Append(hist, [a |-> "DeclareFunction", ctx |-> 0, poly |-> poly])
+(* call(f, args..., instantiation, type_args) of the row-polymorphic declaration at the row of the argument types: the static port
+   sits after the *instantiated* value inputs *)
+CallPoly(k, f, args) ==
+  LET c == ctxs[k].node n == NNodes
+      row == [i \in 1..Len(args) |-> WireType(args[i])] IN
+  /\ calls < MaxCalls /\ f \in Funcs /\ f \in done /\ IsPoly(f) /\ Distinct(args) /\ Len(args) # 1
+  /\ nodes' = Append(nodes, [op |-> [op |-> "Call", func_sig |-> NodeOp(f).signature,
+                                    type_args |-> <<[tya |-> "Sequence", elems |-> [i \in 1..Len(row) |-> TyArg(row[i])]]>>,
+                                    instantiation |-> FnT(row, row)], parent |-> c])
+  /\ links' = WireUp(Append(links, <<f, 0, n, Len(row)>>), n, c, args, 1)
+  /\ done' = done \cup {n} /\ used' = used \cup LinearArgs(args) /\ calls' = calls + 1 /\ UNCHANGED <<ctxs, pending>>
+  /\ hist' = Append(hist, [a |-> "CallPoly", ctx |-> c, f |-> f, args |-> args])
 (* call(f, args...): the Call node, the static edge from the function to the port after the value inputs, then the arguments *)
 CallF(k, f, args) ==
   LET c == ctxs[k].node n == NNodes body == NodeOp(f).signature.body IN
@@ -393,6 +420,9 @@ Next ==
              \/ BranchExit(g, x[1], x[2])
              \/ \E dst \in BlocksOf(g) : Branch(g, x[1], x[2], dst)
      \/ "func" \in Features /\ Len(ctxs) < MaxDepth /\ \E ins \in FuncRows : \E d \in BOOLEAN : \E outs \in (IF d THEN FuncRows ELSE {<<>>}) : DefineFunction(ins, d, outs)
+     \/ "decl" \in Features /\ \E poly \in BOOLEAN : DeclareFunction(poly)
+     \/ "decl" \in Features /\ \E k \in 1..Len(ctxs), f \in {x \in Funcs : x \in done /\ IsPoly(x)} :
+          \E args \in WiresUpTo(Usable(ctxs[k].node), 2) : CallPoly(k, f, args)
      \/ "func" \in Features /\ \E k \in 1..Len(ctxs), f \in Callable : \/ \E args \in ArgsFor(ctxs[k].node, NodeOp(f).signature.body.input) : CallF(k, f, args)
                                                                       \/ LoadF(k, f)
      \/ Len(ctxs) >= 1 /\ ctxs[Len(ctxs)].kind # "loop" /\ \E args \in WiresUpTo(Usable(ctxs[Len(ctxs)].node), MaxArgs) : SetOutputs(args)
@@ -401,7 +431,7 @@ Next ==
           \E s \in {w \in Usable(c) : IsSumT(WireType(w))} : \E r \in ArgsFor(c, NodeOp(c).rest) : SetOutputs(<<s>> \o r)
 (* ---- inconsistent calls (C13): exactly one, anywhere in a well-formed program; the builder must raise the stated error ---- *)
 AllWires == UNION {{<<n, o>> : o \in 0..(Len(OutRow(n)) - 1)} :
-                     n \in {x \in 1..(NNodes - 1) : x \in done /\ NodeOp(x).op \notin {"Output", "Const", "Case", "FuncDefn", "DataflowBlock", "ExitBlock"}}}
+                     n \in {x \in 1..(NNodes - 1) : x \in done /\ NodeOp(x).op \notin {"Output", "Const", "Case", "FuncDefn", "FuncDecl", "DataflowBlock", "ExitBlock"}}}
 IsBlockNode(c) == c # 0 /\ NodeOp(c).op = "DataflowBlock"
 (* what `_wire_up_port` does with a wire whose source region is sp, for a new node placed in container c *)
 WireVerdict(c, w) ==
